@@ -151,8 +151,9 @@ def parse_props(name, pa_output):
   return thms, printed, axioms
 
 
-def run_step(step, tier, seed, scratch_json):
+def run_step(step, tier, seed, scratch_json, pid=''):
   env = dict(os.environ)
+  env['VERIF_PROP'] = pid
   env.update({'PYTHONPATH': REPO, 'PYTHONHASHSEED': env.get('PYTHONHASHSEED', '0'),
               'TF_CPP_MIN_LOG_LEVEL': '3', 'VERIF_TIER': tier,
               'VERIF_SEED': str(seed), 'CUDA_VISIBLE_DEVICES': '',
@@ -247,7 +248,7 @@ def main():
       step = dict(step)
       step['args'] = step.get('args', []) + ['--replay', a.replay]
     out_json = os.path.join(VERIF, 'replays', f'.{pid}_{i}_{os.getpid()}.json')
-    res, log = run_step(step, tier, seed, out_json)
+    res, log = run_step(step, tier, seed, out_json, pid)
     if os.path.exists(out_json):
       os.remove(out_json)
     if res is None:
